@@ -56,7 +56,7 @@ def mesh_spec(rng, kind, order, axisym=False, small=False):
             spec["nx"] = max(5, spec["nx"]) if order == 1 else max(4, spec["nx"])
             spec["ny"] = max(5, spec["ny"]) if order == 1 else max(4, spec["ny"])
             if order >= 3:
-                spec["nx"], spec["ny"] = 4, 4
+                spec["nx"], spec["ny"] = 4, (4 if order == 3 else 3)
         if kind == "graded":
             spec["graded"] = True
         if axisym:
@@ -182,6 +182,8 @@ def make_config(rng, cls, factory, matname, mode, pp, order, meshkind, low_quad=
                 draws=2, nbc=4, direct=True, hist_steps=None):
     axisym = mode == "axisymmetric"
     dyn = factory == "dynamics"
+    if pp is not None and order < 2:
+        order = 2   # on linear triangles grad u (hence J) is constant per element and the volume-average projection is the identity
     if j2 is not None:
         mat = j2_spec(rng, j2[0], j2[1], j2[2], with_density=dyn)
     else:
@@ -203,6 +205,8 @@ def make_config(rng, cls, factory, matname, mode, pp, order, meshkind, low_quad=
     if factory == "multi":
         cost *= 1.0 + 0.9 * c["nblocks"]
         cost += COST[mat["name"]]  # single-block comparison functions
+        if mat["name"] == "lin_log":
+            cost *= 3.0                # per-block copies of the eigen-decomposition rules compile very slowly
     if dyn:
         cost *= 1.3
     if order >= 3:
